@@ -4,10 +4,49 @@ get_key_format, bip38_decrypt, bip38_intermediate_password, bip38_create_new_enc
 The oracle table after "|" (meant for the model) is ignored here.
 'fresh' requests run in a NEW interpreter in which os.urandom is a counting stream installed BEFORE
 bitcoinlib is imported."""
-import sys, os, logging, hashlib, subprocess, json
+import sys, os, logging, hashlib, subprocess, json, threading
 sys.path.insert(0, os.path.dirname(os.path.abspath(__file__)))
 from common_impl import hx, unhx, serve
 logging.disable(logging.CRITICAL)
+
+NWORK = int(os.environ.get('C15_WORKERS', '10'))
+
+
+def fan_out(lines):
+    """scrypt (N=16384, r=8, p=8) costs ~0.5 s per call: split the request lines over worker processes (each with its
+    own data directory); line i goes to worker i mod n, so every worker still answers a long sequence of calls of every
+    kind in ONE interpreter.  'fresh' requests start their own interpreter anyway."""
+    base = os.environ['BCL_DATA_DIR'].rstrip(os.sep)
+    n = min(NWORK, max(1, len(lines) // 40))
+    chunks = [lines[i::n] for i in range(n)]
+    procs = []
+    for w, ch in enumerate(chunks):
+        env = dict(os.environ, C15_WORKER='1', BCL_DATA_DIR=base + '_w%d' % w + os.sep)
+        os.makedirs(env['BCL_DATA_DIR'], exist_ok=True)
+        procs.append(subprocess.Popen([sys.executable, os.path.abspath(__file__)], stdin=subprocess.PIPE,
+                                      stdout=subprocess.PIPE, env=env, text=True))
+    outs = [None] * n
+
+    def run(i):
+        o, _ = procs[i].communicate(''.join(chunks[i]))
+        outs[i] = o.split('\n')[:len(chunks[i])]
+    ths = [threading.Thread(target=run, args=(i,)) for i in range(n)]
+    [t.start() for t in ths]
+    [t.join() for t in ths]
+    res = [None] * len(lines)
+    for w in range(n):
+        for j, o in enumerate(outs[w]):
+            res[w + j * n] = o
+    sys.stdout.write('\n'.join('CRASH worker' if r is None else r for r in res) + '\n')
+
+
+if __name__ == '__main__' and not os.environ.get('C15_WORKER'):
+    _lines = sys.stdin.readlines()
+    if len(_lines) >= 80 and NWORK > 1:
+        fan_out(_lines)
+        sys.exit(0)
+else:
+    _lines = None
 
 FRESH_SCRIPT = r'''
 import os, sys, hashlib, json, logging
@@ -60,8 +99,8 @@ for n, op in enumerate(sys.argv[1].split(',')):
 print('%d %s %s %s' % (import_draws, ','.join(uses), ','.join(drawn), ','.join(digests)))
 '''
 
-from bitcoinlib.keys import (Key, HDKey, BKeyError, get_key_format, bip38_decrypt, bip38_intermediate_password,
-                             bip38_create_new_encrypted_wif)
+from bitcoinlib.keys import (Key, HDKey, BKeyError, get_key_format, bip38_decrypt, bip38_encrypt,
+                             bip38_intermediate_password, bip38_create_new_encrypted_wif)
 from bitcoinlib.encoding import EncodingError, scrypt_hash
 from Crypto.Cipher import AES
 
@@ -75,11 +114,18 @@ def err(e):
         return 'ERR assert'
     if isinstance(e, ValueError):
         return 'ERR value'
+    if isinstance(e, TypeError):
+        return 'ERR type'
     return 'ERR other:' + type(e).__name__
 
 
 def text(h):
     return unhx(h).decode('utf-8')
+
+
+def pwarg(tok):
+    """the passphrase ARGUMENT: 'b:<hex>' = a bytes object, '<hex>' = the str with that UTF-8 encoding"""
+    return unhx(tok[2:]) if tok.startswith('b:') else text(tok)
 
 
 def mk_key(kfmt, k, c, nw):
@@ -115,7 +161,16 @@ def dispatch(t):
     if k in ('enc', 'spec_enc'):
         _, kfmt, sec, c, nw, pfx, pwr, pwn = t
         try:
-            return 'OK ' + mk_key(kfmt, sec, c == '1', nw).encrypt(text(pwr))
+            return 'OK ' + mk_key(kfmt, sec, c == '1', nw).encrypt(pwarg(pwr))
+        except Exception as e:
+            return err(e)
+    if k == 'encfn':            # bip38_encrypt(private_hex, address, password[, flagbyte]) called directly
+        _, priv, akind, addr, fl, pwr, pwn = t
+        try:
+            a = unhx(addr) if akind == 'b' else text(addr)
+            if fl == 'def':
+                return 'OK ' + bip38_encrypt(priv, a, pwarg(pwr))
+            return 'OK ' + bip38_encrypt(priv, a, pwarg(pwr), unhx(fl))
         except Exception as e:
             return err(e)
     if k in ('dec', 'spec_dec'):
@@ -129,17 +184,17 @@ def dispatch(t):
         try:
             kw = {} if nw == '-' else {'network': nw}
             if cls == 'hdkey':
-                key = HDKey(s, password=text(pwr), witness_type='legacy', **kw)
+                key = HDKey(s, password=pwarg(pwr), witness_type='legacy', **kw)
             elif cls == 'hdkeydef':
-                key = HDKey(s, password=text(pwr), **kw)
+                key = HDKey(s, password=pwarg(pwr), **kw)
             else:
-                key = Key(s, password=text(pwr), **kw)
+                key = Key(s, password=pwarg(pwr), **kw)
             return 'OK %d %d' % (key.secret, 1 if key.compressed else 0)
         except Exception as e:
             return err(e)
     if k == 'decinfo':
         try:
-            priv, ah, comp, d = bip38_decrypt(text(t[1]), text(t[2]))
+            priv, ah, comp, d = bip38_decrypt(text(t[1]), pwarg(t[2]))
             o = lambda v: '-' if v is None else str(v)
             return 'OK %s %s %d %s %s %s' % (hx(priv), hx(ah), 1 if comp else 0, o(d.get('lot')), o(d.get('sequence')),
                                              d.get('seed') or '-')
@@ -148,7 +203,7 @@ def dispatch(t):
     if k in ('inter', 'spec_inter'):
         _, pwr, pwn, lot, sq, salt = t
         try:
-            return 'OK ' + bip38_intermediate_password(text(pwr), None if lot == '-' else int(lot),
+            return 'OK ' + bip38_intermediate_password(pwarg(pwr), None if lot == '-' else int(lot),
                                                        None if sq == '-' else int(sq), owner_salt=unhx(salt).hex())
         except Exception as e:
             return err(e)
@@ -174,4 +229,6 @@ def dispatch(t):
 
 
 if __name__ == '__main__':
+    if _lines is not None:
+        sys.stdin = iter(_lines)
     serve(dispatch)
